@@ -39,6 +39,7 @@ DBlock(nb0, v, k) ==
   IN CASE v = "none"  -> NoVft
        [] v = "same"  -> Vft(None, base)
        [] v = "ext"   -> Vft(None, Append(base, G))
+       [] v = "extm0" -> Vft(None, Append(base, Func("m0", "priv", <<>>, <<ArgM>>, TNone, None, None, "")))
        [] v = "trunc" -> Vft(None, SubSeq(base, 1, nb0 - 1))
        [] v = "swap"  -> Vft(None, IF nb0 = 2 THEN <<F2, F1>> ELSE base)
        [] OTHER -> Vft(None, [i \in DOMAIN base |-> IF i = k THEN Mutate(base[i], v) ELSE base[i]] \o <<G>>)
@@ -64,8 +65,8 @@ MCInit ==
   /\ \E ptr \in Ptrs, nb0 \in NB0, v \in Variants, k \in 1..2, b1 \in WithB1, b1v \in B1Vft,
         clash \in Clash, dd \in DDs, ddv \in DDVft :
         /\ k <= Max(nb0, 1)
-        /\ (v \in {"none", "same", "ext", "trunc", "swap"} => k = 1)
-        /\ (nb0 = 0 => v \in {"none", "ext"})
+        /\ (v \in {"none", "same", "ext", "extm0", "trunc", "swap"} => k = 1)
+        /\ (nb0 = 0 => v \in {"none", "ext", "extm0"})
         /\ (v = "trunc" => nb0 = 2) /\ (v = "swap" => nb0 = 2)
         /\ (~b1 => ~b1v)
         /\ (dd = "none" => ~ddv)
@@ -150,6 +151,11 @@ TypeOracle(di) ==
       table |-> [i \in DOMAIN EffTable(input, p, 8) |->
                    [name |-> EffTable(input, p, 8)[i].name, cc |-> EffTable(input, p, 8)[i].cc,
                     pad |-> EffTable(input, p, 8)[i].pad]],
+      baseTable |-> LET bt == FirstBaseType(input, M, d)
+                    IN IF bt # TNone /\ bt.k = "raw"
+                       THEN [i \in DOMAIN EffTable(input, bt.p, 8) |-> [name |-> EffTable(input, bt.p, 8)[i].name,
+                                                                        cc |-> EffTable(input, bt.p, 8)[i].cc]]
+                       ELSE <<>>,
       exposed |-> SelectSeq(EffFuncs(input, p, 8), LAMBDA e : e.field # ""),
       asrefs |-> ExpectedAsRefs(input, p)]
 
